@@ -2,14 +2,22 @@
    the copy denotes the source's value, resized - is C16_copy_value_* in Properties_C16.v.)
    Statements only. *)
 From CV Require Import Core.Builder Core.Reader Core.ReaderFacts Core.BuilderFacts Core.HeapProofs Core.BuildOps Core.BuildValid
-  Core.HeapInv Core.HeapOps Core.HeapCopy Core.HeapCopySrc Core.HeapSteps Core.HeapHistory.
+  Core.HeapInv Core.HeapOps Core.HeapCopy Core.HeapCopySrc Core.HeapSteps Core.HeapValid Core.HeapHistory.
+Require Import ZArith List. Import ListNotations.
 Open Scope Z_scope.
 
-(* inside one message (forced copies: SetPtr of a list member, SetStruct, CopyFrom, forceCopy in
-   copyStruct): the copy consists of table entries that did not exist before (C05_copy_all extends
-   the tables), whose regions are disjoint from every older object; so a later write inside an
-   older object - the source or anything else - leaves the copy byte for byte unchanged, and a
-   later write inside the copy leaves every older object unchanged *)
+(* inside one message.  WHAT THIS THEOREM IS: a byte-level frame property of the table invariant,
+   for ANY split of the object table into an older part objs and a newer part eo: a write inside
+   an entry of one part leaves every entry of the other part byte for byte unchanged.  It does not
+   mention write_ptr.  It is applied to forced copies (SetPtr of a list member, SetStruct,
+   CopyFrom, forceCopy in copyStruct) through C05_copy_all, which gives such a split with the
+   invariant after the call - but C05_copy_all states only "exists eo": NOT that eo is non-empty,
+   NOT that the written slot designates an entry of eo, NOT that the slots of eo's entries designate
+   entries of eo.  So "a forced copy allocates fresh objects for the whole reachable tree" (deep,
+   not shallow) is not a theorem here: for copies from another message it follows from the value
+   half (the destination cannot point into the source), for copies inside one message it is checked
+   by the runs (trees after mutating either side) and shown on one program by
+   C16_forced_copy_is_deep_example below. *)
 Theorem C16_copy_independent : forall m objs eo pads m' R j,
   hinv m (objs ++ eo) pads -> keeps m m' R -> (j < length (regsO (objs ++ eo)))%nat ->
   inside (nth j (regsO (objs ++ eo)) root_reg) R ->
@@ -40,3 +48,11 @@ Theorem C16_copy_unchanged_by_source_setter : forall w (F : bmsg -> res bmsg) w'
   set_in w InSrc F = Ok w' -> w_dst w' = w_dst w.
 Proof. exact src_setter_dst. Qed.
 Print Assumptions C16_copy_unchanged_by_source_setter.
+
+(* one program, evaluated: CopyFrom inside one message copies the child too (new child at 48, the
+   old one stays at 24), and later writes to either child do not show in the other *)
+Example C16_forced_copy_is_deep_example :
+  sub_prog ex3_ops = true /\
+  map bval_summary (brun ex2_env ex2_st0 ex3_ops) = [8; 24; 0; 0; 0; 32; 0; 48; 24; 0; 7; 9; 0; 5; 9].
+Proof. exact forced_copy_is_deep_example. Qed.
+Print Assumptions C16_forced_copy_is_deep_example.
